@@ -89,7 +89,7 @@ VHstoredatam(HFILEID f, const char *field, const uint8 *buf, int32 n, int32 data
              const char *vsclass, int32 order)
 {
     int32 ref;
-    int32 vs;
+    int32 vs        = FAIL;
     int32 ret_value = SUCCEED;
 
     if ((vs = VSattach(f, -1, "w")) == FAIL)
@@ -111,12 +111,19 @@ VHstoredatam(HFILEID f, const char *field, const uint8 *buf, int32 n, int32 data
         HGOTO_ERROR(DFE_BADVSCLASS, FAIL);
 
     ref = VSQueryref(vs);
-    if (VSdetach(vs) == FAIL)
+    if (VSdetach(vs) == FAIL) {
+        vs = FAIL;
         HGOTO_ERROR(DFE_CANTDETACH, FAIL);
+    }
 
     ret_value = ((int32)ref);
 
 done:
+    /* do not leave the new vdata attached on failure: the file could not be
+       closed any more */
+    if (ret_value == FAIL && vs != FAIL)
+        VSdetach(vs);
+
     return ret_value;
 } /* VHstoredatam */
 
